@@ -425,6 +425,11 @@ func validateParamHeaders(header http.Header, msg *jsonrpc.Request, tool *Tool) 
 		}
 
 		if headerVal == "" {
+			// The empty string is encoded as an empty header value, which is
+			// indistinguishable from an absent header.
+			if s, ok := unmarshalPrimitive(argRaw).(string); ok && s == "" {
+				continue
+			}
 			return fmt.Errorf("header mismatch: missing %s header for parameter %q", fullHeader, strings.Join(b.Path, "."))
 		}
 
